@@ -25,7 +25,7 @@ ASSUMPTIONS = [
     "alignBoundariesAcrossTiers' documented ArgumentError guard (reference timestamps closer than maxDifference) is accepted whenever two consecutive reference timestamps are closer than maxDifference",
     "morph tolerance: 8 ulp per interval of the largest timestamp involved",
 ]
-REQUIRED_CLASSES = ["dejitter:moved", "dejitter:exactly_maxdiff_must_move", "morph:empty_label_selected", "dejitter:equidistant", "dejitter:stays", "morph:adjacent_decimal",
+REQUIRED_CLASSES = ["dejitter:reference_edited_in_place", "dejitter:moved", "dejitter:exactly_maxdiff_must_move", "morph:empty_label_selected", "dejitter:equidistant", "dejitter:stays", "morph:adjacent_decimal",
                     "dejitter:collapse_rejected", "align:moved"]
 
 REL = Fraction(1, 10**12)
@@ -102,6 +102,18 @@ def run_dejitter(case):
     p = P()
     spec, ref, m = case["tier"], case["ref"], case["m"]
     tier, rt = mk_tier(spec), mk_tier(ref)
+    extra = set()
+    if case.get("ref_delete") is not None and ref["entries"]:
+        # the reference was used once and then edited in place: the next dejitter must see its current timestamps
+        try:
+            with quiet():
+                tier.dejitter(rt, m)
+        except Exception:  # noqa - judged below on the real call
+            pass
+        cur = list(rt.entries)
+        rt.deleteEntry(cur[case["ref_delete"] % len(cur)])
+        ref = dict(ref, entries=[list(e) for e in rt.entries])
+        extra.add("reference_edited_in_place")
     b0, r0 = snap_tier(tier), snap_tier(rt)
     refs = sorted({t for e in ref["entries"] for t in e[:-1]})
     what = f"dejitter(m={m!r})"
@@ -126,9 +138,7 @@ def run_dejitter(case):
     if snap_tier(tier) != b0 or snap_tier(rt) != r0:
         raise Violation("operand-mutated", what)
     snap = snap_tier(res)
-    cl = check_dejitter_result(spec, refs, m, snap, what)
-    if (snap["name"], snap["minT"]) != (b0["name"], b0["minT"]):
-        pass
+    cl = check_dejitter_result(spec, refs, m, snap, what) | extra
     if "exactly_maxdiff_must_move" in cl:
         cl.add("moved")
     return {"classes": sorted(cl), "nontrivial": "moved" in cl and "stays" in cl}
@@ -286,7 +296,8 @@ def dejitter_cases(draw):
     spec = draw(st.one_of(gen.interval_tier(style=style, label=gen.AB), gen.point_tier(style=style, label=gen.AB)))
     m = draw(_mvals(style))
     ts = sorted({t for e in spec["entries"] for t in e[:-1]})
-    return {"tier": spec, "ref": draw(ref_for(style, ts, m)), "m": m}
+    return {"tier": spec, "ref": draw(ref_for(style, ts, m)), "m": m,
+            "ref_delete": draw(st.one_of(st.none(), st.none(), st.integers(0, 7)))}
 
 
 @st.composite
